@@ -226,16 +226,18 @@ def uses(t, pkg):
 
 # -------------------------------------------------------------------- specs
 class Method:
-    def __init__(self, name, verb, ctx, results):
-        """ctx: False (no context.Context parameter) or its position "first" | "middle" | "last" among the
+    def __init__(self, name, verb, ctx, results, ptr_body=False):
+        """ptr_body: the document of a body verb is a pointer parameter (in *In);
+        ctx: False (no context.Context parameter) or its position "first" | "middle" | "last" among the
         parameters (True = "first")"""
         self.name, self.verb, self.results = name, verb, results
         self.ctx = "first" if ctx is True else (ctx or False)
         self.body_param = verb in BODY_VERBS
+        self.ptr_body = bool(ptr_body) and self.body_param
 
     def params(self):
         """parameter list; the context may stand anywhere (the generator finds it by its type)"""
-        own = ["in In"] if self.body_param else []
+        own = ["in *In" if self.ptr_body else "in In"] if self.body_param else []
         if self.ctx == "first" or not self.ctx:
             return (["ctx context.Context"] if self.ctx else []) + own
         lead = own or ["q string"]                 # a query parameter (non-body verbs)
@@ -285,6 +287,7 @@ class Pkg:
 # (VERBS[k % 5]: Delete, Get, Post, Put), a leading one and none (Patch, Delete)
 CTX_PLAN = ["first", "first", "first", "first", "last", "middle", "last", "middle", "first", False]
 CTX_CYCLE = ["last", "middle", "first"]
+PTR_BODY_PLAN = (2, 6, 8)
 
 
 def gen_iface_pkg(rng, name, n_ifaces, n_methods, force=None, ctx_plan=()):
@@ -321,7 +324,9 @@ def gen_iface_pkg(rng, name, n_ifaces, n_methods, force=None, ctx_plan=()):
                     results = [RESP, ERR]
             else:
                 results = [([], rt), RESP, ERR]
-            ms.append(Method("M%d" % k, verb, ctx, results))
+            # the document as a pointer parameter: fixed for M2 (Put), M6 (Post), M8 (Patch) of the plan, 40% elsewhere
+            ptr = (k in PTR_BODY_PLAN) if k < len(ctx_plan) else rng.random() < 0.4
+            ms.append(Method("M%d" % k, verb, ctx, results, ptr_body=ptr))
             k += 1
         ifaces.append(Iface("C%s%d" % (name.capitalize(), i), ms))
     return Pkg(name, ifaces)
